@@ -558,3 +558,7 @@ CASES += [
  dict(id='get-hash-by-address', kind='fire', file=B, old='        self.hash(&mut s);', new='        (self as *const Self).hash(&mut s);', expect={'C02': 'structural hash'}),
  dict(id='export-free-vars-only', kind='fire', file=M, old='let mut ordered_variables = input_parsed.vars.clone();', new='let mut ordered_variables = input_parsed.free_vars.clone();', expect={'C09': '-r', 'C11': '-r'}),
 ]
+
+CASES += [
+ dict(id='parsetree-table-loop-labels-swapped', kind='fire', file=PIO, patch='bn10-07.diff', old='[("If", c), ("Then", t), ("Else", e)]', new='[("If", c), ("Then", e), ("Else", t)]', expect={'C14': 'labels of Ite'}, control=False),
+]
